@@ -58,6 +58,15 @@ func selected(o *Oblig, pu PropUnit, prop string) bool {
 	if o.Cover {
 		return true
 	}
+	if len(o.Tags) > 0 && !hasTag(o, prop) {
+		// obligations attributed to other properties are decided by those properties' checks
+		for _, s := range pu.Sel {
+			if strings.HasPrefix(s, "name:") && strings.Contains(o.Name, strings.TrimPrefix(s, "name:")) {
+				return true
+			}
+		}
+		return false
+	}
 	for _, s := range pu.Sel {
 		switch s {
 		case "all":
